@@ -16,6 +16,9 @@ RULE = (
     "materialized by the real code on a 4-row frame with a, b, c in general position, ensure_full_rank on and off, "
     "through Formula.get_model_matrix, an unfitted ModelSpec, model_matrix() and ModelSpecs; each non-zero derivative "
     "term's column, located through model_spec.term_indices, is compared with the exact forward difference "
+    "[the same over the factor alphabet {a, N, c} for every N among the 26 names of formulaic's transform namespace used "
+    "as a plain column (scale, lag, log, C, np, ...), 5 other identifiers, 2 back-quoted names, and 4 names used both as "
+    "a column and as a function N(a) in the same formula] "
     "(h = 1 and h = 1/2) of the product of the original term's factor columns.  Non-trivial = at least one term "
     "whose derivative the property specifies and wrt non-empty; counted once per (formula, ordering, wrt, path, rank)."
 )
@@ -41,12 +44,23 @@ _DF = []
 _FCACHE = {}
 
 
-def frame():
-    if not _DF:
+_FRAMES = {}
+
+
+def frame(data=None):
+    data = DATA if data is None else data
+    key = id(data)
+    if key not in _FRAMES:
         import pandas
 
-        _DF.append(pandas.DataFrame(DATA))
-    return _DF[0]
+        _FRAMES[key] = (data, pandas.DataFrame(data))  # keep `data` alive so the id stays unique
+    return _FRAMES[key][1]
+
+
+def printed_term(t, ctx):
+    """how formulaic prints a written term (back-quoted names lose their quotes)"""
+    pr = ctx.get("printed") or {}
+    return ":".join(pr.get(f, f) for f in t)
 
 
 def formula_for(s, ordering):
@@ -75,7 +89,7 @@ def choose_formula(c, ctx):
         terms.append(remaining.pop(c.choose(len(remaining))))
     if ctx.get("reverse_factors") and c.flag():
         terms = [tuple(reversed(t)) for t in terms]
-    icpt = not c.flag()
+    icpt = c.pick(ctx.get("icpts", [True, False]))
     rhs = " + ".join(":".join(t) for t in terms)
     if not icpt:
         rhs = ("0 + " + rhs) if rhs else "0"
@@ -85,7 +99,7 @@ def choose_formula(c, ctx):
 
 
 def choose_wrt(c, ctx):
-    return tuple(c.seq(WRT_VARS, ctx["wrt"], ctx.get("wrt_min", 0)))
+    return tuple(c.seq(ctx.get("wrt_vars", WRT_VARS), ctx["wrt"], ctx.get("wrt_min", 0)))
 
 
 def side_terms(f):
@@ -122,7 +136,7 @@ def drv_symbolic(c, ctx, col):
     F = formula_for(s, ordering)
     before = {k: side_terms(v) for k, v in sides_of(F).items()}
     # the formula must hold exactly the written terms (this is C01's business; a mismatch here is a harness problem)
-    written = (["1"] if icpt else []) + [":".join(t) for t in terms]
+    written = (["1"] if icpt else []) + [printed_term(t, ctx) for t in terms]
     held = before["root" if side == "simple" else "rhs"]
     if sorted(held) != sorted(written) or (ordering == "none" and held != written):
         raise HarnessError("formula %r holds %r, expected %r" % (s, held, written))
@@ -215,11 +229,11 @@ def close_cols(got, want):
 PATHS = ["formula", "spec-unfitted", "two-sided-formula", "two-sided-specs"]
 
 
-def materialize(path, s, ordering, wrt, efr, output="pandas"):
+def materialize(path, s, ordering, wrt, efr, output="pandas", data=None):
     """-> (dict side -> (derivative SimpleFormula, ModelMatrix), note)   raises whatever the implementation raises"""
     from formulaic import Formula, ModelSpec, model_matrix
 
-    df = frame()
+    df = frame(data)
     note = None
     if path == "formula":
         F = formula_for(s, ordering)
@@ -246,11 +260,12 @@ def materialize(path, s, ordering, wrt, efr, output="pandas"):
 def drv_numeric(c, ctx, col):
     rhs, terms, icpt = choose_formula(c, ctx)
     wrt = choose_wrt(c, ctx)
-    efr = not c.flag()
+    efr = c.pick(ctx.get("ranks", [True, False]))
     path = c.pick(ctx["paths"])
     output = c.pick(ctx.get("outputs", ["pandas"]))
     ordering = "none"
-    written = {"root" if not path.startswith("two-sided") else "rhs": (["1"] if icpt else []) + [":".join(t) for t in terms]}
+    data = ctx.get("data", DATA)
+    written = {"root" if not path.startswith("two-sided") else "rhs": (["1"] if icpt else []) + [printed_term(t, ctx) for t in terms]}
     if path.startswith("two-sided"):
         written["lhs"] = ["y"]
     shown = rhs if not path.startswith("two-sided") else "y ~ " + rhs
@@ -272,8 +287,8 @@ def drv_numeric(c, ctx, col):
     has_one = any(r == ("TERM", ()) for v in want_all.values() for r in v)
     key = "numeric[%s] :: %r wrt=%s ensure_full_rank=%s output=%s (zero-terms=%d unit-term=%s)" % (
         path, shown, list(wrt), efr, output, n_zero, "yes" if has_one else "no")
-    detail = {"formula": shown, "wrt": list(wrt), "ensure_full_rank": efr, "path": path, "output": output, "data": DATA,
-              "repro": "df = pandas.DataFrame(%r); %s" % ({k: DATA[k] for k in ("a", "b", "c", "y")}, call)}
+    detail = {"formula": shown, "wrt": list(wrt), "ensure_full_rank": efr, "path": path, "output": output, "data": data,
+              "repro": "df = pandas.DataFrame(%r); %s" % (data, call)}
     checkable = sum(1 for v in want_all.values() for r in v if r[0] == "TERM")
     _violation = col.violation
 
@@ -283,7 +298,7 @@ def drv_numeric(c, ctx, col):
     if checkable and wrt:
         col.interesting()
     try:
-        res, note = materialize(path, rhs, ordering, wrt, efr, output)
+        res, note = materialize(path, rhs, ordering, wrt, efr, output, data)
     except Exception as e:
         col.violation(key, dict(detail, error="%s: %s" % (type(e).__name__, str(e)[:200])), sig="materialization-raises")
         return
@@ -307,9 +322,9 @@ def drv_numeric(c, ctx, col):
                 col.count("zero-or-unspecified-term-skipped")
                 continue
             factors = CR.split_term(t_written)
-            fd1 = CR.finite_difference(factors, wrt, DATA, 1.0)
-            fd2 = CR.finite_difference(factors, wrt, DATA, 0.5)
-            direct = CR.column(w[1], DATA)
+            fd1 = CR.finite_difference(factors, wrt, data, 1.0)
+            fd2 = CR.finite_difference(factors, wrt, data, 0.5)
+            direct = CR.column(w[1], data)
             if not (close_cols(fd1, direct) and close_cols(fd2, direct)):
                 raise HarnessError("finite differences disagree with the symbolic rule for %r wrt %r" % (t_written, wrt))
             d = dict(detail_side, term=t_written, derivative_term=str(dterm), want_column=fd1)
@@ -330,6 +345,46 @@ def drv_numeric(c, ctx, col):
                 return
             col.count("columns-agree")
     col.sample({"formula": shown, "wrt": list(wrt), "ensure_full_rank": efr, "path": path})
+
+
+# ---------------------------------------------------------------------------
+# variable names in other roles: columns named like built-in transforms, other identifiers, back-quoted names,
+# and names that are also used as a function in the same formula
+
+TRANSFORM_NAMES = ["C", "Diff", "Helmert", "I", "Poly", "Q", "Sum", "Treatment", "bs", "cc", "center", "contr", "cr", "cs",
+                   "exp", "exp10", "exp2", "hashed", "lag", "log", "log10", "log2", "np", "poly", "scale", "standardize"]
+OTHER_NAMES = ["abs", "a.b", "_u", "X1", "\u00e9"]               # a Python builtin, a dotted name, underscore, mixed case, non-ASCII
+QUOTED_NAMES = ["a b", "b-2"]                                    # written back-quoted, printed and differentiated bare
+FUNC_NAMES = ["log", "exp", "center", "scale"]                   # column N next to the factor N(a)
+NAME_ROLES = ([("transform", n) for n in TRANSFORM_NAMES] + [("identifier", n) for n in OTHER_NAMES]
+              + [("quoted", n) for n in QUOTED_NAMES] + [("function", n) for n in FUNC_NAMES])
+_ROLE_CTX = {}
+
+
+def role_ctx(role, name, base):
+    """the ctx of drv_symbolic / drv_numeric for the factor alphabet {a, N, c} (or {a, N, N(a)})"""
+    key = (role, name, id(base))
+    if key not in _ROLE_CTX:
+        tok = "`%s`" % name if role == "quoted" else name
+        third = "%s(a)" % name if role == "function" else "c"
+        factors = ["a", tok, third]
+        terms = [t for r in (1, 2, 3) for t in itertools.combinations(factors, r)]
+        data = {"a": DATA["a"], name: DATA["b"], "c": DATA["c"], "y": DATA["y"]}
+        sub = dict(base)
+        sub.update(terms=terms, printed={tok: name}, wrt_vars=["a", name, "c", "d"], data=data)
+        _ROLE_CTX[key] = sub
+    return _ROLE_CTX[key]
+
+
+def drv_names_symbolic(c, ctx, col):
+    role, name = c.pick(ctx["roles"])
+    drv_symbolic(c, role_ctx(role, name, ctx), col)
+
+
+def drv_names_numeric(c, ctx, col):
+    # not the "function" role: a data column named N shadows the function N, so N(a) cannot be evaluated at all
+    role, name = c.pick([r for r in ctx["roles"] if r[0] != "function"])
+    drv_numeric(c, role_ctx(role, name, ctx), col)
 
 
 def drv_fitted(c, ctx, col):
@@ -411,6 +466,15 @@ def subchecks(tier, seed):
         subs.append(Sub("numeric-outputs", drv_numeric, {"terms": TERMS_PLAIN, "n": 1, "wrt": 2, "paths": ["formula"], "outputs": ["numpy", "sparse"]},
                         shard_depth=3, bounds={"max_terms": 1, "term_pool": 7, "wrt_max_len": 2, "ensure_full_rank": [True, False],
                                                "paths": ["formula"], "outputs": ["numpy", "sparse"]}))
+        subs.append(Sub("names-symbolic", drv_names_symbolic, {"roles": NAME_ROLES, "n": 2, "wrt": 2, "orderings": ["none"], "sides": ["simple"]},
+                        shard_depth=2, bounds={"names": {"transform": TRANSFORM_NAMES, "identifier": OTHER_NAMES, "quoted": QUOTED_NAMES,
+                                                         "function (column N next to factor N(a))": FUNC_NAMES},
+                                               "factors": "a, N, c (or N(a))", "max_terms": 2, "term_pool": 7, "wrt_max_len": 2,
+                                               "wrt_vars": "a, N, c, d", "orderings": ["none"], "sides": ["simple"]}))
+        subs.append(Sub("names-numeric", drv_names_numeric, {"roles": NAME_ROLES, "n": 1, "wrt": 2, "paths": ["formula"], "icpts": [True],
+                                                              "ranks": [True]},
+                        shard_depth=2, bounds={"names": "all but the function role (%d)" % (len(NAME_ROLES) - len(FUNC_NAMES)), "max_terms": 1, "term_pool": 7, "wrt_max_len": 2, "intercept": "on",
+                                               "ensure_full_rank": [True], "paths": ["formula"], "data": "column N holds b's values"}))
         subs.append(Sub("fitted-spec", drv_fitted, {"terms": TERMS_PLAIN, "n": 1, "wrt": 1}, shard_depth=2,
                         bounds={"max_terms": 1, "term_pool": 7, "wrt_max_len": 1}))
     else:
@@ -434,6 +498,18 @@ def subchecks(tier, seed):
                                                           "outputs": ["numpy", "sparse"]},
                         shard_depth=3, bounds={"max_terms": 2, "term_pool": 7, "wrt_max_len": 2, "ensure_full_rank": [True, False],
                                                "paths": ["formula", "two-sided-specs"], "outputs": ["numpy", "sparse"]}))
+        subs.append(Sub("names-symbolic", drv_names_symbolic, {"roles": NAME_ROLES, "n": 2, "wrt": 3, "orderings": ["none", "degree"],
+                                                                "sides": ["simple", "y"]},
+                        shard_depth=2, bounds={"names": {"transform": TRANSFORM_NAMES, "identifier": OTHER_NAMES, "quoted": QUOTED_NAMES,
+                                                         "function (column N next to factor N(a))": FUNC_NAMES},
+                                               "factors": "a, N, c (or N(a))", "max_terms": 2, "term_pool": 7, "wrt_max_len": 3,
+                                               "wrt_vars": "a, N, c, d", "orderings": ["none", "degree"], "sides": ["simple", "y ~"]}))
+        subs.append(Sub("names-numeric", drv_names_numeric, {"roles": NAME_ROLES, "n": 2, "wrt": 2, "paths": ["formula"]},
+                        shard_depth=2, bounds={"names": "all but the function role (%d)" % (len(NAME_ROLES) - len(FUNC_NAMES)), "max_terms": 2, "term_pool": 7, "wrt_max_len": 2,
+                                               "ensure_full_rank": [True, False], "paths": ["formula"]}))
+        subs.append(Sub("names-paths", drv_names_numeric, {"roles": NAME_ROLES, "n": 1, "wrt": 2, "paths": PATHS[1:], "icpts": [True]},
+                        shard_depth=2, bounds={"names": "all but the function role (%d)" % (len(NAME_ROLES) - len(FUNC_NAMES)), "max_terms": 1, "wrt_max_len": 2, "intercept": "on",
+                                               "ensure_full_rank": [True, False], "paths": PATHS[1:]}))
         subs.append(Sub("fitted-spec", drv_fitted, {"terms": TERMS_PLAIN, "n": 2, "wrt": 2}, shard_depth=2,
                         bounds={"max_terms": 2, "term_pool": 7, "wrt_max_len": 2}))
     return subs
